@@ -254,6 +254,32 @@ Proof.
   split5; [exact Ht|cbn; constructor|apply good_nil; assumption|apply incr_nil|constructor].
 Qed.
 
+(* the counter never decreases along the arguments of a modification *)
+Fixpoint walk_modif_mono (rs : bool) (m : modif) : forall s, fst s <= fst (walk_modif rs m s)
+with walk_arg_mono (rs : bool) (a : arg) : forall s, fst s <= fst (walk_arg rs a s).
+Proof.
+  - destruct m as [cm val]. destruct cm as [args|]; cbn [walk_modif]; [|intros; apply le_n].
+    refine ((fix go (l : list arg) : forall s, fst s <= fst (fold_left (fun s' a => walk_arg rs a s') l s) :=
+               match l with
+               | [] => fun s => le_n _
+               | a :: r => fun s => Nat.le_trans _ _ _ (walk_arg_mono rs a s) (go r _)
+               end) args).
+  - destruct a as [n m|p t n d m c|ct n t]; cbn [walk_arg]; intros s.
+    + destruct m as [m'|].
+      * eapply Nat.le_trans; [|apply (walk_modif_mono rs m')]. destruct (snd s); cbn; lia.
+      * destruct (snd s); cbn; lia.
+    + cbn [fst]. destruct m as [m'|]; [|cbn; lia].
+      eapply Nat.le_trans; [|apply (walk_modif_mono rs m')]. cbn; lia.
+    + apply le_n.
+Qed.
+
+Lemma walk_args_mono rs m s : fst s <= fst (walk_args rs m s).
+Proof.
+  destruct m as [args|]; cbn [walk_args]; [|apply le_n]. revert s.
+  induction args as [|a r IH]; intros s; cbn [fold_left]; [apply le_n|].
+  eapply Nat.le_trans; [apply (walk_arg_mono rs a)|apply IH].
+Qed.
+
 Lemma bump_nil b l : step_inv l [] [] (bump b l).
 Proof. unfold bump. destruct b; [destruct (l_symset l)|]; apply step_inv_nil; cbn; auto. Qed.
 
@@ -360,7 +386,10 @@ Proof.
     exists (map key ss). unfold syms_of. cbn [flat_map]. rewrite !app_nil_r. split5; auto.
     rewrite Ho, Hcnt. split; apply seq_sorted.
   - intros p m a v path k l r cls k' l' H. cbn [do_element] in H. inversion H; subst.
-    unfold syms_of. cbn. unfold ext_count. apply bump_nil.
+    unfold syms_of. cbn. unfold ext_count.
+    pose proof (walk_args_mono (v_redecl v) m (l_count l, l_symset l)) as Hw. cbn [fst] in Hw.
+    replace (@nil osym) with (@nil osym ++ []) by reflexivity. replace (@nil oclass) with (@nil oclass ++ []) by reflexivity.
+    eapply step_inv_app; [|apply bump_nil]. apply step_inv_nil; cbn; auto.
   - intros i a v path k l r cls k' l' H. cbn [do_element] in H.
     destruct (add_import v i (k_imports k)); [|discriminate]. inversion H; subst. unfold syms_of. cbn. apply bump_nil.
   - intros ct n cm secs eqs algs IH v path k l r cls k' l' H. cbn [do_element] in H. fold (sec_fun v (path ++ [n])) in H.
@@ -449,3 +478,40 @@ Proof.
   unfold class_exts. rewrite eff_vis_ideal by (left; reflexivity). unfold ideal_exts.
   induction secs as [|[lb els] r IH]; [reflexivity|]. cbn [map class_exts_aux flat_map fst snd]. now rewrite IH.
 Qed.
+
+(* ---- the modelled subset --------------------------------------------------------------------------
+   An element redeclaration inside the modification of a COMPONENT (a declared one, or one that is itself
+   redeclared inside an extends clause) is outside the model: there /repo HEAD corrupts the listener state
+   (known finding redeclare-in-component-modification) and do_declr / walk_arg do not mirror that.  The property
+   theorems carry `modelled … = true`; such texts are judged by the oracle only. *)
+Fixpoint modif_redecl (m : modif) : bool :=
+  match m with Modif cm _ => match cm with Some args => existsb arg_redecl args | None => false end end
+with arg_redecl (a : arg) : bool :=
+  match a with
+  | Arg _ m => match m with Some m' => modif_redecl m' | None => false end
+  | ARedecl _ _ _ _ _ _ => true
+  | AShort _ _ _ => true
+  end.
+Fixpoint modif_nested (m : modif) : bool :=
+  match m with Modif cm _ => match cm with Some args => existsb arg_nested args | None => false end end
+with arg_nested (a : arg) : bool :=
+  match a with
+  | Arg _ m => match m with Some m' => modif_nested m' | None => false end
+  | ARedecl _ _ _ _ m _ => match m with Some m' => modif_redecl m' | None => false end
+  | AShort _ _ _ => false
+  end.
+Fixpoint modelled (e : element) : bool :=
+  match e with
+  | EComp cl => forallb (fun d => match d_mod d with Some m => negb (modif_redecl m) | None => true end) (c_decls cl)
+  | EExt _ m _ => match m with Some args => negb (existsb arg_nested args) | None => true end
+  | EImp _ _ => true
+  | ECls _ _ _ secs _ _ => forallb (fun s : label * list element => forallb modelled (snd s)) secs
+  end.
+
+(* model M extends Base(a(b = 1), redeclare Real x = 3, redeclare model N = K); Real z; end M;  — x is no component of M *)
+Definition redecl_example : element :=
+  ECls "model" "M" ""
+    [(Unl, [EExt ["Base"] (Some [Arg "a" (Some (Modif (Some [Arg "b" (Some (Modif None (Some "1")))]) None));
+                                  ARedecl [] ["Real"] "x" None (Some (Modif None (Some "3"))) "";
+                                  AShort "model" "N" ["K"]]) false;
+            EComp (mkC [] ["Real"] None [mkD "z" None None ""])])] [] [].
